@@ -37,6 +37,9 @@ def oracle(case, res):
     if res is None or res['parse_error'] is not None or case['kind'] == 'weird':
         return fails
     rep = {'kind': 'solve', 'case': case}
+    if res.get('hang'):
+        return [{'key': 'hang', 'what': 'SolveEquation did not return within %d s: %s' % (
+            sc.CASE_TIMEOUT, sc.block_text(case).replace('\n', ' | ')), 'replay': rep}]
     s = res['solver']
     T = s.Parser.MaxTime
     ts = res['ts_raw']
